@@ -54,6 +54,11 @@ def run(ctx):
             mode, len(recs), sum(1 for r in recs if r["kind"] == "func" and r["found"] and r["delta"] == 0),
             sum(1 for r in recs if r["kind"] == "var" and r["found"] and r["delta"] == 0), sum(1 for r in recs if not r["found"]),
             summ[0]["nok"] == len(recs)))
+    # through the public API: the same short name in three packages (function and struct method), looked up with and without Pkg() in
+    # every order on one builder (Pkg.tla): a lookup of p.n must never resolve to q.n
+    from lib.replay import replay_family
+    g = ctx.tlc("Pkg", "Gen_Pkg.cfg", workers=1, timeout=600, constants={"MaxOps": 4 if q else 5}, tag="same short name in three packages: all histories")
+    replay_family(ctx, "pkg", ctx.behaviours(g))
     ctx.cov["rule"] = ("one lookup per function of the binary's pclntab whose entry the runtime confirms (FuncForPC), near-miss and absent "
                        "names (suffix, truncation, case flip, generic brackets, prefix), every unexported variable of the zoo and near "
                        "misses; the driver binary is built and run in each link mode; TLC judges each record against the mode table")
